@@ -21,6 +21,7 @@ performed on every path, for every input; the enumeration looks for escapes.
 import Hts.Lemmas.BgzfBytes
 import Hts.Lemmas.BgzfBytesVerify
 import Hts.Lemmas.BgzfBytesBam
+import Hts.Lemmas.BgzfBytesSubst
 namespace Hts.Props.C10
 open Hts.Model.BgzfBytes Hts.Lemmas.BgzfBytes
 
@@ -177,6 +178,86 @@ theorem readAll_unfolds (q : Quirks) (c : Codec) (s : Bytes) :
       | .error e => ([], e)
       | .ok (payload, rest) => (payload ++ (readAll q c rest).1, (readAll q c rest).2) :=
   readAll_eq q c s
+
+/-! ## Corruption: one altered byte of a member's header or trailer (second sentence of the property)
+
+The altered member `m` has the default 18-byte header (`Canon`), stands after any well-framed members
+`pre` and before ANY bytes `t` (the rest of the stream, intact or not).  `stream_position_splits` says
+that every position of a stream is such a place.  For each byte role the outcome is the one stated —
+an error that is not the clean end after exactly the data of `pre`, or the very result of the intact
+stream.  Where the outcome depends on what DEFLATE or CRC-32 make of shifted/altered bytes there is no
+theorem (FLG with FNAME/FCOMMENT/FHCRC set, XLEN ≥ 6, BSIZE enlarged, every byte of the deflate
+data): those positions are covered by the exhaustive enumeration only. -/
+
+/-- every byte of a stream lies in exactly one member, and altering it alters only that member's bytes -/
+theorem stream_position_splits (c : Codec) (ms : List Member) (hwf : ∀ m ∈ ms, m.WellFramed c) (p : Nat)
+    (hp : p < (stream ms).length) (v : UInt8) :
+    ∃ pre m post o, ms = pre ++ m :: post ∧ o < m.bytes.length ∧ p = (stream pre).length + o ∧
+      (stream ms).set p v = stream pre ++ (m.bytes.set o v ++ stream post) :=
+  stream_set_split hwf p hp v
+
+/-- ID1, ID2, CM (offsets 0–2) altered: the data before, then `gzip.ErrHeader`. -/
+theorem subst_magic_is_error (c : Codec) (pre : List Member) (hpre : ∀ m ∈ pre, m.WellFramed c) (m : Member)
+    (m0 m1 m2 m3 xfl os : UInt8) (hc : Canon m m0 m1 m2 m3 xfl os) (o : Nat) (ho : o < 3) (v : UInt8)
+    (hv : m.bytes[o]? ≠ some v) (t : Bytes) :
+    readAll .repaired c (stream pre ++ (m.bytes.set o v ++ t)) = (data pre, .gzHeader) :=
+  readAll_after_prefix_error .repaired c hpre (subst_magic .repaired c hc o ho v hv t)
+
+/-- MTIME, XFL, OS (offsets 4–9) altered to anything: exactly the result of the unaltered stream. -/
+theorem subst_mtime_xfl_os_is_identical (c : Codec) (pre : List Member) (hpre : ∀ m ∈ pre, m.WellFramed c)
+    (m : Member) (hm : m.FramedOk c) (m0 m1 m2 m3 xfl os : UInt8) (hc : Canon m m0 m1 m2 m3 xfl os)
+    (o : Nat) (h4 : 4 ≤ o) (h9 : o ≤ 9) (v : UInt8) (t : Bytes) :
+    readAll .repaired c (stream pre ++ (m.bytes.set o v ++ t)) = readAll .repaired c (stream pre ++ (m.bytes ++ t)) :=
+  readAll_after_prefix_same .repaired c hpre (subst_mtime_xfl_os .repaired c hm hc o h4 h9 v t)
+
+/-- FLG (offset 3) altered in FTEXT or a reserved bit only: exactly the result of the unaltered stream. -/
+theorem subst_flg_plain_is_identical (c : Codec) (pre : List Member) (hpre : ∀ m ∈ pre, m.WellFramed c)
+    (m : Member) (hm : m.FramedOk c) (m0 m1 m2 m3 xfl os : UInt8) (hc : Canon m m0 m1 m2 m3 xfl os)
+    (v : UInt8) (hf : FlgPlain v) (t : Bytes) :
+    readAll .repaired c (stream pre ++ (m.bytes.set 3 v ++ t)) = readAll .repaired c (stream pre ++ (m.bytes ++ t)) :=
+  readAll_after_prefix_same .repaired c hpre (subst_flg_plain .repaired c hm hc v hf t)
+
+/-- FLG altered so that FEXTRA is clear (FNAME, FCOMMENT, FHCRC clear): the data before, then `ErrNoBlockSize`. -/
+theorem subst_flg_no_extra_is_error (c : Codec) (pre : List Member) (hpre : ∀ m ∈ pre, m.WellFramed c)
+    (m : Member) (m0 m1 m2 m3 xfl os : UInt8) (hc : Canon m m0 m1 m2 m3 xfl os) (v : UInt8)
+    (h4 : flagSet v 4 = false) (h8 : flagSet v 8 = false) (h16 : flagSet v 16 = false) (h2 : flagSet v 2 = false)
+    (t : Bytes) :
+    readAll .repaired c (stream pre ++ (m.bytes.set 3 v ++ t)) = (data pre, .noBlockSize) :=
+  readAll_after_prefix_error .repaired c hpre (subst_flg_no_extra .repaired c hc v h4 h8 h16 h2 t)
+
+/-- XLEN low byte (offset 10) set below 6: the data before, then `ErrNoBlockSize`. -/
+theorem subst_xlen_small_is_error (c : Codec) (pre : List Member) (hpre : ∀ m ∈ pre, m.WellFramed c)
+    (m : Member) (m0 m1 m2 m3 xfl os : UInt8) (hc : Canon m m0 m1 m2 m3 xfl os) (n : Nat) (hn : n < 6) (t : Bytes) :
+    readAll .repaired c (stream pre ++ (m.bytes.set 10 (UInt8.ofNat n) ++ t)) = (data pre, .noBlockSize) :=
+  readAll_after_prefix_error .repaired c hpre (subst_xlen_small .repaired c hc n hn t)
+
+/-- SI1, SI2, SLEN (offsets 12–15) altered: the data before, then `ErrNoBlockSize`. -/
+theorem subst_subfield_is_error (c : Codec) (pre : List Member) (hpre : ∀ m ∈ pre, m.WellFramed c)
+    (m : Member) (m0 m1 m2 m3 xfl os : UInt8) (hc : Canon m m0 m1 m2 m3 xfl os) (o : Nat) (h12 : 12 ≤ o)
+    (h15 : o ≤ 15) (v : UInt8) (hv : m.bytes[o]? ≠ some v) (t : Bytes) :
+    readAll .repaired c (stream pre ++ (m.bytes.set o v ++ t)) = (data pre, .noBlockSize) :=
+  readAll_after_prefix_error .repaired c hpre (subst_subfield .repaired c hc o h12 h15 v hv t)
+
+/-- BSIZE (offsets 16, 17) replaced by bytes announcing FEWER bytes than the member has: the data before,
+then an error that is not the clean end.  Codec assumption: `PrefixDetermined`. -/
+theorem subst_bsize_smaller_is_error (c : Codec) (hpd : PrefixDetermined c) (pre : List Member)
+    (hpre : ∀ m ∈ pre, m.WellFramed c) (m : Member) (hm : m.FramedOk c) (m0 m1 m2 m3 xfl os : UInt8)
+    (hc : Canon m m0 m1 m2 m3 xfl os) (b0 b1 : UInt8) (hlt : b0.toNat + 256 * b1.toNat + 1 < m.size) (t : Bytes) :
+    ∃ e, e ≠ .eof ∧
+      readAll .repaired c (stream pre ++ (hdr18 4 m0 m1 m2 m3 xfl os b0 b1 ++ (m.body ++ t))) = (data pre, e) := by
+  obtain ⟨e, he, hr⟩ := subst_bsize_smaller c hpd hm hc b0 b1 hlt t
+  exact ⟨e, he, readAll_after_prefix_error .repaired c hpre hr⟩
+
+/-- Any byte of CRC-32 or ISIZE altered (any header layout): the data before, then an error that is not
+the clean end (`gzip.ErrChecksum`, or `io.ErrShortBuffer` if the payload is oversize).  Codec assumption:
+`PrefixDetermined`. -/
+theorem subst_trailer_is_error (c : Codec) (hpd : PrefixDetermined c) (pre : List Member)
+    (hpre : ∀ m ∈ pre, m.WellFramed c) (m : Member) (hm : m.FramedOk c) (j : Nat) (hj : j < 8) (v : UInt8)
+    (hv : (m.crc ++ m.isize)[j]? ≠ some v) (t : Bytes) :
+    ∃ e, e ≠ .eof ∧
+      readAll .repaired c (stream pre ++ (m.header ++ ((m.cdata ++ (m.crc ++ m.isize).set j v) ++ t))) = (data pre, e) := by
+  obtain ⟨e, he, hr⟩ := subst_trailer_byte .repaired c hpd hm j hj v hv t
+  exact ⟨e, he, readAll_after_prefix_error .repaired c hpre hr⟩
 
 /-! ## Truncation: BAM -/
 
@@ -394,6 +475,41 @@ example : HdrOk ⟨fun _ => true, fun _ => true⟩ (bamMagic ++ [3, 0, 0, 0] ++ 
         ∨ n = 12 ∨ n = 13 ∨ n = 14 := by omega
     rcases this with rfl | rfl | rfl | rfl | rfl | rfl | rfl | rfl | rfl | rfl | rfl | rfl | rfl | rfl | rfl <;>
       simp [bamHeader, Flat.readFull, Flat.read, bamMagic, leNat]
+
+/-- a codec that satisfies `PrefixDetermined` (a length byte, then that many literal bytes) and under
+which the toy data member is framed: the hypotheses of the BSIZE/trailer theorems are satisfiable -/
+def lenCodec : Codec where
+  inflate := fun buf =>
+    match buf with
+    | n :: t => if t.length ≥ n.toNat then .ok (t.take n.toNat) (n.toNat + 1) else .fail 2 0
+    | [] => .fail 2 0
+  crc32 := toyCodec.crc32
+
+example : PrefixDetermined lenCodec := by
+  intro a b p u ha hua hub htk
+  cases a with
+  | nil => simp [lenCodec] at ha
+  | cons n t =>
+    simp only [lenCodec] at ha ⊢
+    split at ha
+    · rename_i hlen
+      injection ha with hp hu
+      subst hu
+      cases b with
+      | nil => simp at hub
+      | cons n' t' =>
+        simp only [List.take_succ_cons, List.cons.injEq] at htk
+        obtain ⟨hn, ht⟩ := htk
+        subst hn
+        have hl' : t'.length ≥ n.toNat := by simpa using hub
+        simp only [hl', if_true, ← hp, ht]
+    · simp at ha
+
+example : toyData.FramedOk lenCodec :=
+  ⟨canonHeader_ok _ _ _ _ _ _ _ (by decide) (by decide), by decide, by decide, by decide, by decide, by decide⟩
+
+/-- the toy data member has the default header -/
+example : Canon toyData 0 0 0 0 0 0xff := ⟨rfl, by decide⟩
 
 /-- a header with a text and one reference entry ("c1\0", length 1000) is well-formed -/
 example : (⟨[3, 0, 0, 0], [0x40, 0x43, 0x4f], [1, 0, 0, 0], [⟨[3, 0, 0, 0], [0x63, 0x31, 0], [0xe8, 3, 0, 0]⟩]⟩ : Hdr).WellFormed
